@@ -3,7 +3,7 @@
 //! Every row-group read used to reopen the file and re-parse the footer
 //! (arrow's `try_new` path): lineitem at SF=10 has ~900 row groups, so a
 //! single scan parsed the same multi-column footer ~900 times. The cache
-//! parses once per (path, mtime) and hands out cheap clones
+//! parses once per (path, file stamp) and hands out cheap clones
 //! (`ArrowReaderMetadata` is Arc-backed).
 
 use crate::error::Result;
@@ -15,17 +15,52 @@ use std::fs::File;
 use std::path::{Path, PathBuf};
 use std::time::SystemTime;
 
-static CACHE: parking_lot::RwLock<Option<HashMap<PathBuf, (SystemTime, ArrowReaderMetadata)>>> =
+/// What must be unchanged for a cached footer to still describe the file.
+///
+/// The modification time alone is not enough: `cp -p`, `rsync -t`,
+/// `touch -r` and restored backups replace a file's content while keeping
+/// its mtime, and a footer parsed from the old bytes then misdirects every
+/// read of the new ones (decode errors or silently wrong rows). The length
+/// catches most replacements; on Unix the inode number and the ctime — which
+/// user code cannot set — also catch a same-length, same-mtime replacement,
+/// whether it was written in place or renamed over the path.
+#[derive(Clone, Copy, PartialEq, Eq, Debug)]
+struct FileStamp {
+    mtime: SystemTime,
+    len: u64,
+    #[cfg(unix)]
+    ino: u64,
+    #[cfg(unix)]
+    ctime: (i64, i64),
+}
+
+impl FileStamp {
+    fn of(path: &Path) -> std::io::Result<Self> {
+        let meta = std::fs::metadata(path)?;
+        #[cfg(unix)]
+        use std::os::unix::fs::MetadataExt;
+        Ok(FileStamp {
+            mtime: meta.modified()?,
+            len: meta.len(),
+            #[cfg(unix)]
+            ino: meta.ino(),
+            #[cfg(unix)]
+            ctime: (meta.ctime(), meta.ctime_nsec()),
+        })
+    }
+}
+
+static CACHE: parking_lot::RwLock<Option<HashMap<PathBuf, (FileStamp, ArrowReaderMetadata)>>> =
     parking_lot::RwLock::new(None);
 
 /// Cached footer metadata for `path` (plain reader options).
 pub fn cached_metadata(path: &Path) -> Result<ArrowReaderMetadata> {
-    let mtime = std::fs::metadata(path)?.modified()?;
+    let stamp = FileStamp::of(path)?;
     {
         let guard = CACHE.read();
         if let Some(map) = guard.as_ref() {
             if let Some((t, md)) = map.get(path) {
-                if *t == mtime {
+                if *t == stamp {
                     return Ok(md.clone());
                 }
             }
@@ -36,7 +71,7 @@ pub fn cached_metadata(path: &Path) -> Result<ArrowReaderMetadata> {
     let mut guard = CACHE.write();
     guard
         .get_or_insert_with(HashMap::new)
-        .insert(path.to_path_buf(), (mtime, md.clone()));
+        .insert(path.to_path_buf(), (stamp, md.clone()));
     Ok(md)
 }
 
@@ -48,7 +83,7 @@ pub fn cached_reader_builder(path: &Path) -> Result<ParquetRecordBatchReaderBuil
 }
 
 static SCHEMA_CACHE: parking_lot::RwLock<
-    Option<HashMap<(PathBuf, usize), (SystemTime, ArrowReaderMetadata)>>,
+    Option<HashMap<(PathBuf, usize), (FileStamp, ArrowReaderMetadata)>>,
 > = parking_lot::RwLock::new(None);
 
 /// Reader builder with a coercion schema override (e.g. dictionary string
@@ -58,12 +93,12 @@ pub fn cached_reader_builder_with_schema(
     schema: arrow::datatypes::SchemaRef,
 ) -> Result<ParquetRecordBatchReaderBuilder<File>> {
     let key = (path.to_path_buf(), std::sync::Arc::as_ptr(&schema) as usize);
-    let mtime = std::fs::metadata(path)?.modified()?;
+    let stamp = FileStamp::of(path)?;
     {
         let guard = SCHEMA_CACHE.read();
         if let Some(map) = guard.as_ref() {
             if let Some((t, md)) = map.get(&key) {
-                if *t == mtime {
+                if *t == stamp {
                     let file = File::open(path)?;
                     return Ok(ParquetRecordBatchReaderBuilder::new_with_metadata(
                         file,
@@ -81,7 +116,7 @@ pub fn cached_reader_builder_with_schema(
     SCHEMA_CACHE
         .write()
         .get_or_insert_with(HashMap::new)
-        .insert(key, (mtime, md.clone()));
+        .insert(key, (stamp, md.clone()));
     let file = File::open(path)?;
     Ok(ParquetRecordBatchReaderBuilder::new_with_metadata(file, md))
 }
